@@ -31,6 +31,13 @@ CLAIMED["C10"] = dict(
     text="Real GarbageCollector (queue capacity 1-4) with retiring threads, reader threads opening/closing regions after a drawn number of their own steps, and stop()/destructor issued at drawn points including while regions are open, while retire() is blocked on a full queue and while the collector is in its usleep back-off (virtual time); oracle: reclaimer ledger (exactly once, never before the regions open at retire time closed, all run by the time stop() returns). Found one genuine defect (fixed).",
     ref="§3 C10", technique="deterministic simulation: seeded schedule search with virtual-time back-off, reclaimer ledger oracle")
 
+CLAIMED["C08"] = dict(
+    text="Real Future/Promise/CountDownLatch (two scheduling-interface variants, six value types) under the simulator: one setter vs. 1-4 threads doing get/wait_for/on_finish/then/ready on copies, registration before, after and racing with set_value, timeouts from negative to INT64_MAX; fault mode adds futex spurious wakes/EINTR and forward clock jumps during wait_for. Oracles: callback ledger (exactly once, never before the value is constructed, on a legitimate thread), value seen (HB race detector on the value storage), wait_for truth table in virtual time, ready monotone, latch ready iff count reached zero, callback nodes freed exactly once (token objects + simulated heap), deadlock verdict for a get() that is never woken.",
+    ref="§3 C08", technique="deterministic simulation: seeded schedule + futex/clock fault search, callback ledger and virtual-time oracle")
+CLAIMED["C16"] = dict(
+    text="Real ConcurrentExecutionQueue (capacity 1-4) with 1-3 producers, inplace / real thread-pool / new-thread executors and a faulty executor that refuses drawn launch attempts and later recovers (fault sequence from the plan); join() and signal_push_event() racing with producers. Oracles: every item consumed exactly once, per producer in order, consume function never active twice, execute/signal return values consistent with refusals, join() covers everything submitted before it (happens-before judged), no stranded items at quiescence, final drain after the healthy signal. One genuine defect is listed as known finding (join returns early behind an in-flight smaller ticket).",
+    ref="§3 C16", technique="deterministic simulation: seeded schedule + executor-fault search, exactly-once/order ledger, quiescence oracle")
+
 NOT_APPLICABLE = {
     "C12": "single-threaded value containers: behaviour is a pure function of the operation sequence; nothing in the statement depends on a schedule, clock, I/O or fault, so deciding it would be property-based testing, not simulation (DESIGN.md §4)",
 }
